@@ -318,6 +318,41 @@ def run_f(prog, res, floor=1):
         if fn.unit.name != "threads.c" or not fn.blocks:
             continue
         defs = {}
+        # locals that point at the deadline of a parameter's thread: tv = &thread->value.context.tval
+        alias = {}
+        for nd in fn.nodes:
+            rhs = vid = None
+            if nd["k"] == "decl" and "d" in nd and nd.get("c"):
+                vid, rhs = nd["d"], nd["c"][0]
+            elif nd["k"] == "bin" and nd["o"] == "=":
+                l0 = fn.strip(nd["c"][0])
+                if fn.nodes[l0]["k"] == "ref" and "d" in fn.nodes[l0]:
+                    vid, rhs = fn.nodes[l0]["d"], nd["c"][1]
+            if vid is None or vid in fn.params:
+                continue
+            r0 = fn.strip(rhs)
+            if fn.nodes[r0]["k"] == "un" and fn.nodes[r0]["o"] == "&":
+                t0 = fn.strip(fn.nodes[r0]["c"][0])
+                if fn.nodes[t0]["k"] == "mem":
+                    root0, path0 = fn.mempath(t0)
+                    rr = fn.strip(root0)
+                    if path0[:3] == ["value", "context", "tval"] and fn.nodes[rr]["k"] == "ref" and fn.nodes[rr].get("d") in fn.params:
+                        alias[vid] = fn.nodes[rr]["d"]
+        for i, nd in enumerate(fn.nodes):
+            # through an alias: tv->tv_sec = ..., or tv handed to a helper that fills it
+            if alias:
+                if nd["k"] == "bin" and nd["o"] in ("=", "+=", "-="):
+                    t1 = fn.strip(nd["c"][0])
+                    if fn.nodes[t1]["k"] == "mem":
+                        r1, p1 = fn.mempath(t1)
+                        r1 = fn.strip(r1)
+                        if fn.nodes[r1]["k"] == "ref" and fn.nodes[r1].get("d") in alias and (not p1 or p1[-1] == "tv_sec"):
+                            defs.setdefault(alias[fn.nodes[r1]["d"]], []).append(i)
+                if nd["k"] == "call":
+                    for a in nd["c"][1:]:
+                        a0 = fn.strip(a)
+                        if fn.nodes[a0]["k"] == "ref" and fn.nodes[a0].get("d") in alias:
+                            defs.setdefault(alias[fn.nodes[a0]["d"]], []).append(i)
         for i, nd in enumerate(fn.nodes):
             tgt = None
             if nd["k"] == "bin" and nd["o"] in ("=", "+=", "-="):
